@@ -1923,10 +1923,17 @@ static void t3_feed(struct cx *cx, struct upipe *enc, struct t3au *a)
     st_trans++;
 }
 
+/* 1: the (unchanged) flow definition is sent again after the first access unit has been input, i.e. while it is still
+ * waiting to be spliced (a mux does this whenever an input's definition is updated); nothing may change in the output */
+static int g_t3_redef;
+
 static void run_t3(int s1, int s2, int di, int align, int pi, int flags, int feed, int hi, int ti)
 {
     char id[96];
-    snprintf(id, sizeof(id), "t3:%d.%d.%d.%d.%d.%d.%d.%d.%d", s1, s2, di, align, pi, flags, feed, hi, ti);
+    if (g_t3_redef)
+        snprintf(id, sizeof(id), "t3:%d.%d.%d.%d.%d.%d.%d.%d.%d.%d", s1, s2, di, align, pi, flags, feed, hi, ti, g_t3_redef);
+    else
+        snprintf(id, sizeof(id), "t3:%d.%d.%d.%d.%d.%d.%d.%d.%d", s1, s2, di, align, pi, flags, feed, hi, ti);
     int hdrmin = t2_hdrs[hi];
     v_crash_note(id);
     v_watchdog(30);
@@ -1999,7 +2006,6 @@ static void run_t3(int s1, int s2, int di, int align, int pi, int flags, int fee
     if (hdrmin)
         ubase_assert(uref_ts_flow_set_pes_header(fd, hdrmin));
     ubase_assert(upipe_set_flow_def(enc, fd));
-    uref_free(fd);
     if (pcr_int)
         ubase_assert(upipe_ts_mux_set_pcr_interval(enc, pcr_int));
     ubase_assert(upipe_ts_mux_set_cc(enc, 12));
@@ -2007,6 +2013,16 @@ static void run_t3(int s1, int s2, int di, int align, int pi, int flags, int fee
     int npk = 0, fed = 0;
     bool eos = false;
     uint64_t mux = T3_T0;
+#define t3_feed(cx_, enc_, a_)                                                  \
+    do {                                                                       \
+        (t3_feed)(cx_, enc_, a_);                                              \
+        if (g_t3_redef && fed == 1) {                                          \
+            VLOG("mux: the same flow definition again");                       \
+            int e_ = upipe_set_flow_def(enc_, fd);                             \
+            if (!ubase_check(e_))                                              \
+                XFAIL("t3:redefinition-refused", "set_flow_def with the definition already in force returned %d", e_); \
+        }                                                                      \
+    } while (0)
     if (feed == 0)
         while (fed < nau)
             t3_feed(cx, enc, &au[fed++]);
@@ -2070,6 +2086,8 @@ static void run_t3(int s1, int s2, int di, int align, int pi, int flags, int fee
             XFAIL("t3:pcr-only-splice", "splice for a PCR-only packet: error %d size %zu", e, sz);
         ubuf_free(ubuf);
     }
+#undef t3_feed
+    uref_free(fd);
     int enc_fatal = cx->n_fatal;
     upipe_release(enc);
     st_exec++;
@@ -2357,6 +2375,12 @@ static void mode_t3(void)
                             for (int feed = 0; feed < (s2 != T3_NONE ? 2 : 1); feed++) {
                                 if (take_case())
                                     run_t3(s1, s2, di, align, pi, flags, feed, 0, T3TS_MIX);
+                                /* the definition sent again while the first unit is queued (no flags; thorough: all) */
+                                if ((flags == 0 || g_thorough) && take_case()) {
+                                    g_t3_redef = 1;
+                                    run_t3(s1, s2, di, align, pi, flags, feed, 0, T3TS_MIX);
+                                    g_t3_redef = 0;
+                                }
                                 /* configured minimum PES header: single access units (thorough: all) */
                                 if ((s2 == T3_NONE || g_thorough) && take_case())
                                     run_t3(s1, s2, di, align, pi, flags, feed, 1, T3TS_MIX);
@@ -2555,10 +2579,11 @@ static bool replay_other(const char *id)
         return true;
     }
     if (!strncmp(id, "t3:", 3)) {
-        int a, b, c, d, e, f, g, h = 0, ti = 0;
-        if (sscanf(id, "t3:%d.%d.%d.%d.%d.%d.%d.%d.%d", &a, &b, &c, &d, &e, &f, &g, &h, &ti) < 7 || h < 0 || h >= T2_NHDRS || ti < 0 || ti >= T3_NTS || a < 0 || a >= T3_NSIZES || b < 0 || (b >= T3_NSIZES && b != T3_NONE) || c < 0 || c >= T2_NSIDS ||
+        int a, b, c, d, e, f, g, h = 0, ti = 0, rd = 0;
+        if (sscanf(id, "t3:%d.%d.%d.%d.%d.%d.%d.%d.%d.%d", &a, &b, &c, &d, &e, &f, &g, &h, &ti, &rd) < 7 || h < 0 || h >= T2_NHDRS || ti < 0 || ti >= T3_NTS || a < 0 || a >= T3_NSIZES || b < 0 || (b >= T3_NSIZES && b != T3_NONE) || c < 0 || c >= T2_NSIDS ||
             e < 0 || e >= T3_NPCR)
             return false;
+        g_t3_redef = !!rd;
         run_t3(a, b, c, !!d, e, f & 15, !!g, h, ti);
         return true;
     }
